@@ -5,6 +5,15 @@ import glob, json, os, re
 V = os.path.dirname(os.path.dirname(os.path.abspath(__file__)))
 d = json.load(open(os.path.join(V, "known_findings.json")))
 out = ["<!-- BEGIN GENERATED (tools/mkreport.py) -->", ""]
+out += ["### 8.5 What each check observed in its last committed run (from evidence/*.json)", "",
+        "| Property | Tier | Shards / hash seeds | Evaluations | Distinct non-trivial | Known findings re-observed | Wall s |",
+        "|---|---|---|---|---|---|---|"]
+for p in sorted(glob.glob(os.path.join(V, "evidence", "C*.json"))):
+    e = json.load(open(p))
+    c = e["coverage"]
+    out.append(f"| {e['property_id']} | {e['tier']} | {c.get('shards')} / {len(c.get('hashseeds', []))} | {c['evaluations']} | "
+               f"{c['distinct_nontrivial']} | {', '.join(sorted(c.get('known_findings_reobserved', {}))) or '-'} | {e['wall_s']} |")
+out += [""]
 out += ["### 9.1 Genuine defects repaired in /repo (one `fix:` commit each)", "",
         "Each was first reported by the named check on the then-current tree, reproduced by a few-line script,",
         "repaired minimally, and the repository's 2722 tests re-run. A fixed entry suppresses nothing.", "",
